@@ -4,6 +4,7 @@
 //! `vbc quick|thorough|--replay <file>|--minimize <file>`; evidence in /verif/evidence/parts/C18.json
 //! (the main C18 check merges it).
 
+mod alloc;
 mod cgen;
 mod model;
 mod oracle;
@@ -14,6 +15,12 @@ use serde_json::{Value, json};
 use std::collections::BTreeSet;
 use std::sync::atomic::Ordering;
 use vh::vcore::*;
+
+#[global_allocator]
+static ALLOC: alloc::Caching = alloc::Caching;
+
+/// Cases that need hundreds of MB inside the writer run one at a time (they reuse each other's blocks).
+static HUGE: std::sync::Mutex<()> = std::sync::Mutex::new(());
 
 pub struct RoundTrip {
     name: &'static str,
@@ -61,6 +68,14 @@ impl Prop for RoundTrip {
     }
     fn eval(&self, case: &Case) -> Outcome {
         let h = hash64(&(case.nregs, case.prefill, &case.items));
+        let _huge = if case.nregs >= 1 << 20 || case.prefill >= 1 << 20 || case.calls() >= 1 << 23 { Some(HUGE.lock().unwrap_or_else(|e| e.into_inner())) } else { None };
+        let t0 = std::time::Instant::now();
+        let prof = std::env::var("VBC_PROF").is_ok();
+        let tick = |what: &str| {
+            if prof && t0.elapsed().as_millis() > 20 {
+                eprintln!("PROF {what} {:?} nregs={} prefill={} items={} calls={}", t0.elapsed(), case.nregs, case.prefill, case.items.len(), case.calls());
+            }
+        };
         // the writer and the reader are the code under test: a panic of either on a case that respects
         // the writer's documented preconditions is a failure of the property
         let (body, der) = match guarded(|| write_case(case)) {
@@ -72,6 +87,7 @@ impl Prop for RoundTrip {
                 return Outcome::fail(h, format!("writer-{}", p.key()), format!("BytecodeWriter panicked: {} at {}", p.message, p.location));
             }
         };
+        tick("written");
         let col = match guarded(|| read_body(&body)) {
             Ok(c) => c,
             Err(p) => {
@@ -82,7 +98,10 @@ impl Prop for RoundTrip {
                 );
             }
         };
-        match check(case, &body, &der, &col) {
+        tick("read");
+        let checked = check(case, &body, &der, &col);
+        tick("checked");
+        match checked {
             Err((k, m)) => Outcome::fail(h, k, m),
             Ok(t) => {
                 let mut cl = vec![];
@@ -283,6 +302,61 @@ fn main() {
         Mode::Minimize(_, doc) => {
             let mut ctx = Ctx::new("C18", "quick");
             ctx.minimize_stored(&RoundTrip { name: SUB_RANDOM }, &doc, 3000)
+        }
+        Mode::Worker(w) if w == "bench" => {
+            println!("size_of ConstPoolEntry={} BytecodeType={} Item={}", std::mem::size_of::<dora_bytecode::ConstPoolEntry>(), std::mem::size_of::<dora_bytecode::BytecodeType>(), std::mem::size_of::<Item>());
+            {
+                let t0 = std::time::Instant::now();
+                let mut w = dora_bytecode::BytecodeWriter::new();
+                for i in 0..(1u32 << 21) {
+                    w.add_register(reg_type(i));
+                }
+                println!("2^21 add_register: {:?}", t0.elapsed());
+                let t0 = std::time::Instant::now();
+                let mut v = vec![];
+                for i in 0..(1u32 << 21) {
+                    v.push(reg_type(i));
+                }
+                println!("2^21 vec push: {:?} {}", t0.elapsed(), v.len());
+                let t0 = std::time::Instant::now();
+                let e = dora_bytecode::BytecodeTypeArray::empty();
+                for i in 0..(1u32 << 21) {
+                    w.add_const(filler(i, &e));
+                }
+                println!("2^21 add_const: {:?}", t0.elapsed());
+                let t0 = std::time::Instant::now();
+                let b = w.generate();
+                println!("generate: {:?}", t0.elapsed());
+                let t0 = std::time::Instant::now();
+                drop(b);
+                println!("drop: {:?}", t0.elapsed());
+            }
+            let p = RoundTrip { name: SUB_RANDOM };
+            let mut pad = Item::new(M::LoopStart);
+            pad.rep = 1 << 21;
+            let mut jl = Item::new(M::JumpLoop);
+            jl.target = 0;
+            for (nregs, prefill, items) in [
+                (1u32, 1u32, vec![Item::new(M::Add)]),
+                (16384, 16384, vec![Item::new(M::Add)]),
+                (1 << 21, 1, vec![Item::new(M::Add)]),
+                (1, 1 << 21, vec![Item::new(M::Add)]),
+                (1, 1, vec![pad.clone(), jl.clone()]),
+            ] {
+                let mut c = Case { nregs, prefill, items, kind: "bench".into() };
+                c.normalize();
+                let t0 = std::time::Instant::now();
+                let o = p.eval(&c);
+                println!(
+                    "nregs={nregs} prefill={prefill} calls={} -> {:?} fail={:?} fresh={}MB reused={}MB",
+                    c.calls(),
+                    t0.elapsed(),
+                    o.fail.map(|f| f.key),
+                    alloc::FRESH_BYTES.load(Ordering::Relaxed) >> 20,
+                    alloc::REUSED_BYTES.load(Ordering::Relaxed) >> 20
+                );
+            }
+            0
         }
         Mode::Worker(_) => {
             eprintln!("usage: vbc quick|thorough|--replay <file>|--minimize <file>");
